@@ -2,7 +2,7 @@
    harness logged): two classes with weights 1 and 2 (quanta 1500 and 3000), flows 1 and 7 share class 1, a 2000-byte
    head that must be parked for one round, a class that empties and refills.  Used by the non-vacuity Examples. *)
 From Coq Require Import ZArith QArith List Bool.
-From ONL Require Import Elem.Packet Elem.StoreQ Elem.DRR Elem.DRRInv Elem.DRRProofs.
+From ONL Require Import Elem.Packet Elem.StoreQ Elem.DRR Elem.DRRInv Elem.DRRProofs Elem.DRRVisit Elem.DRRFair Elem.DRRLive.
 Import ListNotations.
 
 Definition dex_cfg : dcfg := {| drate := ((8192)%Z # 1); dweights := [((0)%Z, (1)%Z); ((1)%Z, (2)%Z)]; df2c := dtbl [((0)%Z, (0)%Z); ((1)%Z, (1)%Z); ((7)%Z, (1)%Z)] |}.
@@ -81,4 +81,31 @@ Example dex_parked :
 Proof.
   destruct (drr_run dex_cfg (drr0 0) (firstn 13 dex_acts)) as [[d tr]|] eqn:E; [|vm_compute in E; discriminate].
   exists d, tr. split; [reflexivity|]. vm_compute in E. injection E as <- <-. vm_compute. repeat split; reflexivity.
+Qed.
+
+(* the hypothesis of the fairness theorem is satisfiable: after the first 13 actions both classes hold packets, and
+   they keep holding packets throughout the next 4 actions (one transmission of class 1 from start to debit) *)
+Example dex_both_backlogged :
+  exists d1 tr1, drr_run dex_cfg (drr0 0) (firstn 13 dex_acts) = Some (d1, tr1)
+    /\ dalways dex_cfg (fun x => dheld dex_cfg x 0 <> [] /\ dheld dex_cfg x 1 <> []) d1 (firstn 4 (skipn 13 dex_acts))
+    /\ exists d2 tr2, drr_run dex_cfg d1 (firstn 4 (skipn 13 dex_acts)) = Some (d2, tr2)
+         /\ dsent dex_cfg 1 tr2 = 1000%Z /\ dsent dex_cfg 0 tr2 = 0%Z.
+Proof.
+  destruct (drr_run dex_cfg (drr0 0) (firstn 13 dex_acts)) as [[d1 tr1]|] eqn:E; [|vm_compute in E; discriminate].
+  exists d1, tr1. split; [reflexivity|]. vm_compute in E. injection E as <- <-. split.
+  - vm_compute. repeat split; discriminate.
+  - eexists. eexists. split; [vm_compute; reflexivity|]. vm_compute. split; reflexivity.
+Qed.
+
+(* the visit automaton accepts the events of the action that parks the 2000-byte head and moves on to class 1 *)
+Example dex_park_events :
+  exists d tr d' ev, drr_run dex_cfg (drr0 0) (firstn 11 dex_acts) = Some (d, tr)
+    /\ drr_act dex_cfg d (DGetDone (Some 0%Z)) = Some (d', ev)
+    /\ match ev with [DOPark 0%Z p; DOQuantum 1%Z] => uid p = 0%nat | _ => False end.
+Proof.
+  destruct (drr_run dex_cfg (drr0 0) (firstn 11 dex_acts)) as [[d tr]|] eqn:E; [|vm_compute in E; discriminate].
+  destruct (drr_act dex_cfg d (DGetDone (Some 0%Z))) as [[d' ev]|] eqn:A.
+  - exists d, tr, d', ev. split; [reflexivity|]. split; [exact A|].
+    vm_compute in E. injection E as <- <-. vm_compute in A. injection A as <- <-. reflexivity.
+  - exfalso. vm_compute in E. injection E as <- <-. vm_compute in A. discriminate.
 Qed.
